@@ -3,12 +3,14 @@ import importlib
 
 # property -> list of (rule module, configs it needs in quick tier)
 PROPERTY_RULES = {
+    "C02": ["r_a6", "r_e1", "r_b1"],
     "C05": ["r_b1", "r_o3"],
     "C06": ["r_b1", "r_o3"],
-    "C09": ["r_c4"],
-    "C10": ["r_c2", "r_e1"],
-    "C11": ["r_c2", "r_e1"],
+    "C09": ["r_c4", "r_c1"],
+    "C10": ["r_c2", "r_c1", "r_e1"],
+    "C11": ["r_c2", "r_c1", "r_a6", "r_e1"],
     "C12": ["r_c4", "r_e1"],
+    "C13": ["r_a6", "r_e1"],
     "C14": ["r_d1"],
     "C16": ["r_e1"],
 }
@@ -16,6 +18,11 @@ PROPERTY_RULES = {
 LEVEL = {"C14": "proof"}
 
 CLAUSES = {
+    "C02": "structural preconditions of the unsafe code: every safe caller establishes the stated precondition of each unsafe helper in release code; "
+           "raw slices have an approved (ptr,len) shape; raw writes are bounded by the real destination length; no wrap-around feeds an extent; "
+           "refcount overflow aborts",
+    "C13": "argument checks of safe methods dominate the unchecked operations they protect in release builds (debug-only asserts are not relied on); "
+           "overflowing requests cannot wrap silently",
     "C09": "Chain touches its second half only on paths where the first is exhausted or fully accounted for (incl. chunks_vectored); "
            "Take truncates by min(inner, limit) and pairs every inner advance with limit -= same operand",
     "C12": "Take/Limit: remaining = min(inner, limit), chunk truncated by the same min, guarded paired bookkeeping; Chain order for both traits; "
@@ -40,6 +47,8 @@ LEVEL_NOTE = {
     "C14": "trusted: rustc type checking/trait resolution, std slice comparison and hash impls, std views (as_bytes, deref, [..]); views show the contents (C01).",
 }
 TECHNIQUE = {
+    "C02": "precondition extraction from debug_assert!s of unsafe helpers + dominating-guard implication at every safe call site; shape rules for raw slices/writes; arithmetic taint",
+    "C13": "dominating-guard implication for unsafe-helper preconditions at safe call sites + arithmetic taint analysis",
     "C09": "path rule over MIR CFG: every entry->call path to a call on Chain.b carries an a-exhausted witness; shape rules for Take",
     "C12": "shape + path rules over MIR for the adapters' arithmetic (min, truncation, paired decrement, Chain order, Reader/Writer transfer)",
     "C05": "role classification of all atomic sites + dominance of free/take-over events by the deciding RMW edge (MIR CFG dominators, interprocedural over call sites)",
